@@ -305,3 +305,42 @@ def approx_rational_cut():
                 ("0 <= rem < divisor", z3.And(T.I(v["rem"]) >= 0, T.I(v["rem"]) < T.I(v["divisor"]))),
                 ("coeff >= 0", T.I(v["coeff"]) >= 0)]
     return Cut(["coeff", "rem"], ["divident", "divisor"], digit_loop_invariant, mode="unroll")
+
+
+# ---------------------------------------------------------------------------
+# parser SWAR helpers (obligations: Kani harnesses chunk_contains_8_digits_all / chunk_to_u64_all over all u64, C06)
+# ---------------------------------------------------------------------------
+
+def _chunk_bytes(st, k):
+    if is_conc(k.t):
+        return [(k.t >> (8 * i)) & 255 for i in range(8)]
+    ent = st.divcache.get(("chunk", k.t.get_id()))
+    if ent is None:
+        raise Unsupported("chunk without byte provenance")
+    return ent[1]
+
+
+def c_chunk_contains_8_digits(ex, st, fr, callee, args):
+    BI._use("CONTRACT chunk_contains_8_digits(k) <=> all 8 bytes are ASCII digits (obligation: Kani harness over all u64)")
+    bs = _chunk_bytes(st, args[0])
+    conds = [T.band(T.le(48, b), T.le(b, 57)) for b in bs]
+    allc = T.band(*conds)
+    if isinstance(allc, bool):
+        return allc
+    from mir2smt.exec import decide_by_intervals
+    d = decide_by_intervals(allc, st.tags.get("bnd", {}))
+    if d is not None:
+        return d
+    return allc
+
+
+def c_chunk_to_u64(ex, st, fr, callee, args):
+    BI._use("CONTRACT chunk_to_u64(k) = decimal value of the 8 digits (obligation: Kani harness over all digit chunks)")
+    bs = _chunk_bytes(st, args[0])
+    v = 0
+    for i, b in enumerate(bs):
+        v = T.add(v, T.mul(T.sub(b, 48), 10 ** (7 - i)))
+    return IV(v, "u64")
+
+
+PARSER_CONTRACTS = {"chunk_contains_8_digits": c_chunk_contains_8_digits, "chunk_to_u64": c_chunk_to_u64}
